@@ -283,6 +283,55 @@ def trained_witness(field, value, history, fixed=True):
     return ok, got, {"settings": s, "history": [list(h) for h in history]}
 
 
+def unobserved_witness():
+    """A level that the EM training pairs never show (never-observed level): the marker must stay in the
+    training history / the session's working copy - never in a level of the linker's Settings - and the
+    level must score the same (same m / u getters, same predictions) after save and reload."""
+    import splink.comparison_library as cl
+    from splink import block_on
+    from splink.internals.constants import LEVEL_NOT_OBSERVED_TEXT as NOBS
+    rows = []
+    fn = ["amy", "bob", "cat", "dan"]
+    for i in range(16):
+        rows.append({"unique_id": i, "first_name": fn[i % 4], "surname": ["aaaa", "zzzz"][(i // 4) % 2], "city": "c%d" % (i % 3)})
+    rows.append({"unique_id": 16, "first_name": "eve", "surname": "aaab", "city": "c0"})
+    df = pd.DataFrame(rows)
+    for c in ("first_name", "surname", "city"):
+        df[c] = df[c].astype("string")
+    s = {"link_type": "dedupe_only", "comparisons": [cl.LevenshteinAtThresholds("surname", [1]), cl.ExactMatch("city")],
+         "blocking_rules_to_generate_predictions": [block_on("city")]}
+    lk = linker_for([df], s, "duckdb")
+    hist = [("u", None, apply_training(lk, "u", None))]
+    try:
+        lk.training.estimate_parameters_using_expectation_maximisation(block_on("first_name"))
+        hist.append(("em", "first_name", True))
+    except Exception as e:
+        hist.append(("em", "first_name", repr(e)[:100]))
+    su.quiet()
+    got = {"history": hist, "marker_in_history": False, "marker_in_level": [], "getter_differences": []}
+    for c in lk._settings_obj.comparisons:
+        for lv in c.comparison_levels:
+            if any(r["probability"] == NOBS for r in lv._trained_m_probabilities + lv._trained_u_probabilities):
+                got["marker_in_history"] = True
+            for f in ("_m_probability", "_u_probability"):
+                if getattr(lv, f) == NOBS:
+                    got["marker_in_level"].append([c.output_column_name, lv.label_for_charts, f])
+    p1 = predict_rows(lk)
+    d1, d1_text, lk2 = save_and_reload(lk, [df], "duckdb")
+    for c1, c2 in zip(lk._settings_obj.comparisons, lk2._settings_obj.comparisons):
+        for l1, l2 in zip(c1.comparison_levels, c2.comparison_levels):
+            if l1.is_null_level:
+                continue
+            for f in ("m_probability", "u_probability"):
+                if getattr(l1, f) != getattr(l2, f):
+                    got["getter_differences"].append([c1.output_column_name, l1.label_for_charts, f, getattr(l1, f), getattr(l2, f)])
+    diffs = diff_predictions(p1, predict_rows(lk2))
+    if diffs:
+        got["prediction_differences"] = diffs
+    ok = not got["marker_in_level"] and not got["getter_differences"] and not diffs
+    return ok, got, {"rows": rows, "settings": "LevenshteinAtThresholds(surname,[1]) + ExactMatch(city); EM blocked on first_name"}
+
+
 REPORTED: set = set()
 
 
@@ -344,6 +393,20 @@ def run_witnesses(ctx: Ctx):
                 {"field": "comparison_description", "creator": "CustomComparison", "route": kind})
     for k3 in ("dict", "creator", "library"):      # flags used by the generator
         flags.setdefault("description_" + k3, False)
+    try:
+        ok, got, case = unobserved_witness()
+    except Exception as e:
+        ok, got, case = False, {"exception": repr(e)[:300]}, {}
+    flags["unobserved_level"] = ok
+    flags["unobserved_level_exercised"] = bool(got.get("marker_in_history"))
+    ctx.count_case(("witness", "unobserved level"), True, None)
+    ctx.hist("witness", "unobserved_level" + (":ok" if ok else ":differs") + ("" if got.get("marker_in_history") else ":marker-not-produced"))
+    if not ok:
+        ctx.violation(f"a model with a never-observed level does not survive save / reload: {str(got)[:400]}",
+                      {"case": case, "implementation": got,
+                       "specification": "the never-observed marker never sits in a level of the linker's Settings; m / u getters "
+                                        "and predict() agree between the in-memory and the reloaded linker"},
+                      {"field": "m_probability", "unobserved_level": True})
     for hi, hist in enumerate(TRAINED_HISTORIES):
         for fixed in (True, False):
             name = ("fixed:" if fixed else "free:") + ",".join(op for op, _ in hist)
